@@ -5,7 +5,7 @@
    `kreach k`: the state of one host's kernel after ANY sequence of syscalls
    (any fd, any argument) and ANY inbound packets, for any KernelConfig. *)
 From TV.Lib Require Import Base.
-From TV.NetTcp Require Import Gen Model Facts C16_proofs C13_proofs.
+From TV.NetTcp Require Import Gen Model Facts C16_proofs C13_proofs C13_own.
 Open Scope N_scope.
 
 (* The socket table and its two indexes stay coherent: fds are unique, every
@@ -79,8 +79,7 @@ Proof. exact synsent_outcomes. Qed.
 
 (* accept: pops exactly the head of the ready queue, reports the child's peer,
    leaves the child untouched; with an empty queue it is Pending and changes
-   nothing.  (That no fd is ever queued twice is the world-level statement
-   c13_accept_once below.) *)
+   nothing.  (That no fd is ever queued or handed out twice is c13_accept_once.) *)
 Theorem c13_accept_pops : forall k fd s l c rest cs t,
   lookup k fd = Some s -> s_listen s = Some l -> ready l = c :: rest -> c <> fd ->
   lookup k c = Some cs -> s_tcb cs = Some t ->
@@ -88,6 +87,28 @@ Theorem c13_accept_pops : forall k fd s l c rest cs t,
   (exists s', lookup (fst (k_poll_accept k fd)) fd = Some s' /\ s_listen s' = Some (mklisten (backlog l) rest)) /\
   lookup (fst (k_poll_accept k fd)) c = Some cs.
 Proof. exact accept_pops_lemma. Qed.
+
+(* accept hands out each connection at most once.  `orun (oinit c a) es`: one
+   host with its application, after ANY sequence of application calls on the
+   handles it holds (listen, connect, poll, accept, send, recv, shutdown,
+   drop) and ANY inbound packets and egress passes; `acc_log` is the ghost
+   log of the fds accept has returned (accept_logs).  Also: what is queued for
+   accept is never handed out again, is queued once, and neither a queued nor
+   an accepted socket is still handshaking. *)
+Theorem c13_accept_once : forall c a es,
+  let o := orun (oinit c a) es in
+  NoDup (acc_log o) /\ NoDup (ready_of (okk o)) /\
+  (forall x, In x (acc_log o) -> ~ In x (ready_of (okk o))) /\
+  (forall x s, In x (ready_of (okk o) ++ acc_log o) -> In (x, s) (socks (okk o)) -> is_synrcvd s = false).
+Proof. exact accept_once_lemma. Qed.
+
+Theorem c13_accept_logs : forall o fd,
+  own o fd = true -> is_listening (okk o) fd = true ->
+  match snd (k_poll_accept (okk o) fd) with
+  | Ready (c, _) => acc_log (ostep o (OAccept fd)) = acc_log o ++ [c] /\ owned (ostep o (OAccept fd)) = owned o ++ [c]
+  | _ => acc_log (ostep o (OAccept fd)) = acc_log o
+  end.
+Proof. exact accept_logs_lemma. Qed.
 
 (* Reclamation, the proved part: (1) after every egress pass no socket is left
    that is kernel-closed and terminal; (2) closing a socket that holds no live
@@ -172,6 +193,8 @@ Print Assumptions c13_connect_iff.
 Print Assumptions c13_connect_result.
 Print Assumptions c13_synsent_outcomes.
 Print Assumptions c13_accept_pops.
+Print Assumptions c13_accept_once.
+Print Assumptions c13_accept_logs.
 Print Assumptions c13_reclaimed_partial.
 Print Assumptions c13_close_open.
 Print Assumptions c13_reclaimed_refuted.
